@@ -198,7 +198,9 @@ Inductive iwop : Type :=
 | OpPart (part:list (list Z))      (* data.write_part(part) *)
 | OpComplete                       (* data.complete() *)
 | OpWrite (part:list (list Z))     (* data.write(part) *)
-| OpClear.                         (* data.clear() *)
+| OpClear                          (* data.clear() *)
+| OpReopen.                        (* a new wrapper on the same datasets: a new field object's .data,
+                                      e.g. after the dataset was closed and reopened 'r+' *)
 
 Definition iw_op (w:iw) (o:iwop) : res iw :=
   match o with
@@ -206,6 +208,7 @@ Definition iw_op (w:iw) (o:iwop) : res iw :=
   | OpComplete => iw_complete w
   | OpWrite p => do w1 <- iw_write_part w p; iw_complete w1
   | OpClear => Ok (iw_clear w)
+  | OpReopen => iw_init (iw_cs w) (iw_ind w) (iw_val w)
   end.
 
 Fixpoint iw_run (w:iw) (ops:list iwop) : res iw :=
